@@ -243,6 +243,7 @@ class FixedPolymorphicType(PolymorphicType):
     def __eq__(self, o: object) -> bool:
         return (
             isinstance(o, FixedPolymorphicType)
+            and o.name == self.name
             and len(set(o.types).symmetric_difference(self.types)) == 0
         )
 
